@@ -132,9 +132,30 @@ def strip_comments(text):
     return re.sub(r"--.*", "", text)
 
 
-def forbidden_tokens():
+def import_closure(roots):
+    """project files transitively imported by the given module names (EvoModel.X.Y)"""
+    seen, todo = {}, list(roots)
+    while todo:
+        m = todo.pop()
+        if m in seen:
+            continue
+        f = LEAN / (m.replace(".", "/") + ".lean")
+        if not f.exists():
+            continue
+        seen[m] = f
+        for mm in re.findall(r"^\s*import\s+(EvoModel\.\S+)", f.read_text(), flags=re.M):
+            todo.append(mm)
+    return seen
+
+
+def forbidden_tokens(prop=None):
+    """sorry/admit/axiom/native_decide/… in the files the property's theorems and driver depend on"""
+    if prop:
+        files = sorted(import_closure([f"EvoModel.Props.{prop}", f"EvoModel.Drv.{prop}"]).values())
+    else:
+        files = sorted((LEAN / "EvoModel").rglob("*.lean"))
     hits = []
-    for f in sorted((LEAN / "EvoModel").rglob("*.lean")):
+    for f in files:
         for i, line in enumerate(strip_comments(f.read_text()).split("\n")):
             if FORBIDDEN.search(line):
                 hits.append(f"{f.relative_to(LEAN)}:{i+1}: {line.strip()[:80]}")
@@ -190,7 +211,7 @@ def lean_side(prop, tier, pre_build=None):
             ok += 1
         else:
             bad.append(f"{n}: axioms {sorted(axs - STD_AXIOMS)}")
-    hits = forbidden_tokens()
+    hits = forbidden_tokens(prop)
     if hits:
         bad.append("forbidden tokens: " + "; ".join(hits[:5]))
     res["discharged"] = ok if not hits else 0
